@@ -225,7 +225,26 @@ def check_types(ctx, fn, tool, prog):
     return n
 
 
+def _once_dom():
+    from rules import c11
+    from absint import TOP, NONZERO, ONE
+
+    class OnceDom(c11.Dom):
+        """the faulted call site fails the first time it runs; later executions (loop iterations) may succeed"""
+        def call_value(self, call, st):
+            if call is self.target:
+                return TOP if st.has("$again") else NONZERO
+            return c11.Dom.call_value(self, call, st)
+
+        def on_call(self, call, st, blk, idx):
+            if call is self.target and st.has("$f"):
+                return st.set("$again", ONE)
+            return c11.Dom.on_call(self, call, st, blk, idx)
+    return OnceDom
+
+
 def check_sticky(ctx, vprog):
+    OnceDom = _once_dom()
     """ncvalidator: a non-zero verdict returned by any of its own int functions is never dropped on the way to the exit
     status (the C11 fault-injection rule applied to the validator's verdicts, NC_ENULLPAD included)."""
     from rules import c11
@@ -257,7 +276,7 @@ def check_sticky(ctx, vprog):
             if name != "main":
                 if fn.type(fn.ret).get("k") == "void":
                     continue
-                c11.check_site(ctx, fn, c, "R1.sticky", sid, "%s()" % c["fn"])
+                c11.check_site(ctx, fn, c, "R1.sticky", sid, "%s()" % c["fn"], dom_cls=OnceDom)
                 continue
             # main: the verdict must reach exit()'s argument
             class MainDom(c11.Dom):
